@@ -3,6 +3,7 @@ C03 — dgrep selects exactly the lines grep semantics prescribe.
 -/
 import DtailModel.Lemmas.Grep
 import DtailModel.Lemmas.GenGrep
+import DtailModel.Lemmas.GenPlain
 namespace Dtail.C03
 open Dtail
 variable {α : Type}
@@ -126,5 +127,45 @@ theorem C03_full_false : ¬ C03_full := by
 /-- Non-vacuity of `C03_partial`: a non-trivial terminator-insensitive engine. -/
 example : sigNlSensitive (fun l => l.contains 111) [[102, 111, 111, 10], [98, 10], [111]] = false := by
   decide
+
+/-- **Tie G for the path without context options.**  `filterWithoutLContext` of readfilelcontext.go with `transmittable`
+    and the statistics ring of internal/io/fs, translated on this run: a reader that may not skip lines (cat, grep, mapreduce)
+    started on a fresh file sends exactly the selected lines, in file order, each once and each with its position in the
+    file as its running number — the plain path of `dgrepLines`, whose contents are `gplain` and hence the block
+    specification with no context (`C03_plain_path`). -/
+theorem C03_generated_plain_filter (ext : Go.Ext) (re : Go.GoRegex) (raws : List Bytes) (f : Gen.Fs.readFile)
+    (hc : f.canSkipLines = false) (h0 : f.stats.lineCount = 0) (hl : f.lines = []) :
+    ((Gen.Fs.readFile.filterWithoutLContext ext f () raws () re).lines.map GenPlain.numOf)
+      = (((GenPlain.judged ext re raws).zipIdx 1).filter (·.1.1)).map
+          (fun (p : (Bool × Bytes) × Nat) => (((p.2 : Nat) : Int), p.1.2)) ∧
+    ((Gen.Fs.readFile.filterWithoutLContext ext f () raws () re).lines.map (fun l => (GenPlain.numOf l).2))
+      = grepSpec 0 0 0 (blocks (GenPlain.judged ext re raws)).1 (blocks (GenPlain.judged ext re raws)).2 := by
+  obtain ⟨h1, _, _⟩ := GenPlain.plain_refines ext re raws f hc
+  have hnum : (Gen.Fs.readFile.filterWithoutLContext ext f () raws () re).lines.map GenPlain.numOf
+      = (((GenPlain.judged ext re raws).zipIdx 1).filter (·.1.1)).map
+          (fun (p : (Bool × Bytes) × Nat) => (((p.2 : Nat) : Int), p.1.2)) := by
+    rw [h1, hl, h0]
+    have := GenPlain.plainNumbered_eq (GenPlain.judged ext re raws) 0
+    simpa using this
+  refine ⟨hnum, ?_⟩
+  rw [← C03_plain_path]
+  have : (Gen.Fs.readFile.filterWithoutLContext ext f () raws () re).lines.map (fun l => (GenPlain.numOf l).2)
+      = ((Gen.Fs.readFile.filterWithoutLContext ext f () raws () re).lines.map GenPlain.numOf).map (·.2) := by
+    rw [List.map_map]; rfl
+  rw [this, hnum, List.map_map]
+  unfold gplain
+  generalize GenPlain.judged ext re raws = ls
+  suffices h : ∀ (k : Nat), ((ls.zipIdx k).filter (·.1.1)).map
+      ((fun (q : Int × Bytes) => q.2) ∘ fun (p : (Bool × Bytes) × Nat) => (((p.2 : Nat) : Int), p.1.2))
+      = (ls.filter (·.1)).map (·.2) from h 1
+  induction ls with
+  | nil => intro k; rfl
+  | cons p rest ih =>
+    intro k
+    obtain ⟨sel, x⟩ := p
+    simp only [List.zipIdx_cons, List.filter_cons]
+    cases sel
+    · simp only [Bool.false_eq_true, if_false]; exact ih (k + 1)
+    · simp only [if_true, List.map_cons, Function.comp]; rw [← ih (k + 1)]
 
 end Dtail.C03
